@@ -1,8 +1,92 @@
 import FordModel.Proto
 import FordModel.Escape
 import FordModel.Show
+import FordModel.AttrStmt
+import FordModel.Generated.C18
 namespace Ford
 open Proto Html Show
+
+/-! request of `c18.cleanup`: kind, then counted lists (count first): argument names; the result
+    (`-` or `N<name>`); interface procedures; items; attr_dict entries (key, counted attributes);
+    param_dict (key, value); variables (name, full_type, permission, intent, optional, parameter,
+    dimension, initial `N`/`S<text>`, counted attribs) -/
+namespace Cleanup18
+open AttrStmt
+
+def readList : List Str → List Str × List Str
+  | [] => ([], [])
+  | c :: r => (r.take (natOf c), r.drop (natOf c))
+
+def readVars : Nat → List Str → List DVar × List Str
+  | 0, xs => ([], xs)
+  | n + 1, nm :: ft :: pe :: it :: op :: pa :: dm :: ini :: rest =>
+    let a := readList rest
+    let v : DVar := ⟨nm, ft, pe, it, op == ['1'], pa == ['1'], a.1, dm,
+                     match ini with | 'S' :: t => some t | _ => none⟩
+    let r := readVars n a.2
+    (v :: r.1, r.2)
+  | _, xs => ([], xs)
+
+def readDict : Nat → List Str → Dict × List Str
+  | 0, xs => ([], xs)
+  | n + 1, k :: rest =>
+    let a := readList rest
+    let r := readDict n a.2
+    ((k, a.1) :: r.1, r.2)
+  | _, xs => ([], xs)
+
+def readPairs : Nat → List Str → List (Str × Str) × List Str
+  | 0, xs => ([], xs)
+  | n + 1, k :: v :: rest =>
+    let r := readPairs n rest
+    ((k, v) :: r.1, r.2)
+  | _, xs => ([], xs)
+
+def showVar (v : DVar) : List Str :=
+  [['v'], v.name, v.ftype, v.permission, v.intent, if v.optional then ['1'] else ['0'],
+   if v.parameter then ['1'] else ['0'], v.dimension,
+   match v.initial with | none => ['N'] | some t => 'S' :: t, showNat v.attribs.length] ++ v.attribs
+
+def showSlot : Slot → List Str
+  | .name s => [['n'], s]
+  | .proc s => [['p'], s]
+  | .var v => showVar v
+
+def stepsOf (kind : Str) : List CleanStep :=
+  if kind == (chars! "proc") then Generated.C18.procCleanupSteps
+  else if kind == (chars! "func") then Generated.C18.funcCleanupSteps
+  else Generated.C18.unitCleanupSteps
+
+def run (kind : Str) (xs : List Str) : List Str :=
+  let a := readList xs
+  match a.2 with
+  | ret :: r1 =>
+    let ifs := readList r1
+    let items := readList ifs.2   -- each `1<name>` (has `attribs`) or `0<name>`
+    match items.2 with
+    | nd :: r2 =>
+      let d := readDict (natOf nd) r2
+      match d.2 with
+      | np :: r3 =>
+        let ps := readPairs (natOf np) r3
+        match ps.2 with
+        | nv :: r4 =>
+          let vs := readVars (natOf nv) r4
+          let st : PState := ⟨vs.1, a.1.map Slot.name,
+            match ret with | 'N' :: t => some (.name t) | _ => none,
+            ifs.1, items.1.map (fun s => ⟨s.drop 1, s.head? == some '1'⟩), some d.1, ps.1⟩
+          match runCleanup (stepsOf kind) st with
+          | none => ["err".toList, "attribute-error".toList]
+          | some st' =>
+            "ok".toList :: showNat st'.args.length :: (st'.args.map showSlot).flatten ++
+              (match st'.ret with | none => [['-']] | some s => showSlot s) ++
+              showNat st'.vars.length :: (st'.vars.map showVar).flatten
+        | _ => ["bad-request".toList]
+      | _ => ["bad-request".toList]
+    | _ => ["bad-request".toList]
+  | _ => ["bad-request".toList]
+
+end Cleanup18
 
 def rerrName18 : RErr → Str
   | .badEscape => "bad-escape".toList
@@ -95,6 +179,10 @@ def dispatchC18 : List Str → Option (List Str)
     else if cmd == "c18.fdecl".toList then
       match args with
       | ft :: dim :: par :: attribs => some ["ok".toList, fullDeclaration ft attribs dim (boolOf par)]
+      | _ => some ["bad-request".toList]
+    else if cmd == "c18.cleanup".toList then
+      match args with
+      | kind :: rest => some (Cleanup18.run kind rest)
       | _ => some ["bad-request".toList]
     else none
   | [] => none
